@@ -9,6 +9,8 @@ from ..cfg import CFG, cond_strings
 from ..core import AnalysisError, const_value
 from ..defuse import DefUse, Terms, show, walk_term
 from ..flow import Flow
+from ..paths import path_variants
+from ..tutil import seq_elems
 
 EXPLANATION = (
     "Static analysis of confidence.assign_confidence / "
@@ -489,51 +491,90 @@ def _target_decoy_routing(ctx):
     du = DefUse(prog, f)
     T = Terms(du, phi_vars=True)
     cfg = CFG(f.node)
-    apps = [n for n in ast.walk(f.node) if isinstance(n, ast.Call)
-            and isinstance(n.func, ast.Attribute)
-            and n.func.attr == "append" and isinstance(
-                n.func.value, ast.Name) and n.func.value.id == "data_out"]
-    ctx.require(len(apps) >= 2, f"{f.qual}: data_out appends not found")
-    # non-sqlite branch: first append = target mask, second = negated mask
-    seq = []
-    for a in sorted(apps, key=lambda n: n.lineno):
-        gs = [ast.unparse(g[0]) + ("" if g[1] else " [else]")
-              for g in cfg.guards(a) if "zip" not in ast.unparse(g[0])]
-        arg = a.args[0]
-        mask = None
-        if isinstance(arg, ast.Subscript) and isinstance(
-                arg.value, ast.Attribute) and arg.value.attr == "loc":
-            sl = arg.slice
-            first = sl.elts[0] if isinstance(sl, ast.Tuple) else sl
-            mask = ast.unparse(first)
-        seq.append((gs, mask))
-    non_sql = [(g, m) for g, m in seq if "not is_sqlite" in g]
-    tmask = None
-    ok = False
-    if len(non_sql) == 2:
-        (g0, m0), (g1, m1) = non_sql
-        tmask = m0
-        ok = (m0 is not None and m1 == f"~{m0}" and "decoys" in " ".join(g1)
-              and "decoys" not in " ".join(g0))
+    # the loop that hands blocks to writers: for w, d in zip(writers, BLOCKS)
+    wz0 = [n for n in ast.walk(f.node) if isinstance(n, ast.For)
+           and isinstance(n.iter, ast.Call)
+           and ast.unparse(n.iter.func) == "zip" and len(n.iter.args) == 2
+           and any(isinstance(x, ast.Call) and isinstance(
+               x.func, ast.Attribute) and x.func.attr == "append_data"
+               for x in ast.walk(n))]
+    ctx.require(len(wz0) == 1, f"{f.qual}: loop pairing writers with output "
+                "blocks not found")
+    chunk_loop = cfg.enclosing(wz0[0], (ast.For,))
+    ctx.require(chunk_loop is not None, f"{f.qual}: chunk loop not found")
+    blocks_by_val = {}
+    for v in path_variants(f.node, within=chunk_loop):
+        vdu = DefUse(prog, f, fnode=v.fnode)
+        vT = Terms(vdu, phi_vars=True)
+        # which (sqlite, decoys) valuations take this path?
+        names = {}
+        for t, _o in v.conds:
+            for nm in ast.walk(t):
+                if isinstance(nm, ast.Name):
+                    tt = vT.of(nm)
+                    if tt == ("param", "decoys"):
+                        names[nm.id] = "decoys"
+                    elif any(x == ("const", ".db") for x in walk_term(tt)):
+                        names[nm.id] = "sqlite"
+                    else:
+                        raise AnalysisError(
+                            f"{f.qual}: output blocks depend on "
+                            f"'{nm.id}', neither the decoys flag nor the "
+                            "sqlite test; rule C03d needs re-reading")
+        vz = [n for n in ast.walk(v.fnode) if isinstance(n, ast.For)
+              and isinstance(n.iter, ast.Call)
+              and ast.unparse(n.iter.func) == "zip" and len(
+                  n.iter.args) == 2
+              and any(isinstance(x, ast.Call) and isinstance(
+                  x.func, ast.Attribute) and x.func.attr == "append_data"
+                  for x in ast.walk(n))]
+        ctx.require(len(vz) == 1, f"{f.qual}: writer loop lost in a variant")
+        elems = seq_elems(vT.of(vz[0].iter.args[1]))
+        ctx.require(elems is not None, f"{f.qual}: construction of the "
+                    "output blocks not recognised: "
+                    + show(vT.of(vz[0].iter.args[1]), 200))
+        for sq in (False, True):
+            for dc in (False, True):
+                env = {n: (sq if k == "sqlite" else dc)
+                       for n, k in names.items()}
+                try:
+                    takes = all(bool(eval_cond(t, env)) == o
+                                for t, o in v.conds)
+                except CondUnknown as e:
+                    raise AnalysisError(f"{f.qual}: cannot evaluate {e}")
+                if takes:
+                    ctx.require((sq, dc) not in blocks_by_val,
+                                f"{f.qual}: two paths for one valuation")
+                    blocks_by_val[(sq, dc)] = elems
+    ctx.require(len(blocks_by_val) == 4, f"{f.qual}: output blocks not "
+                "determined for every (sqlite, decoys) valuation")
+
+    def rows_under(e):
+        """mask term of  chunk.loc[mask, cols]  (else None)"""
+        if e[0] == "sub" and e[1][0] == "attr" and e[1][2] == "loc" and \
+                e[2][0] == "tuple" and len(e[2][1]) == 2:
+            return e[2][1][0]
+        return None
+
+    one = blocks_by_val[(False, False)]
+    two = blocks_by_val[(False, True)]
+    tmask = rows_under(one[0]) if len(one) == 1 else None
+    ok = (tmask is not None and len(two) == 2 and two[0] == one[0]
+          and rows_under(two[1]) == ("un", "~", tmask)
+          and two[1][1] == one[0][1] and two[1][2][1][1] == one[0][2][1][1])
     ctx.check(ok, "C03d-mask-order", f,
               "first output block = rows under the target mask, second "
               "(only when decoys are requested) = rows under its negation",
-              f"append sequence: {seq}", node=apps[0])
+              "blocks without decoys: " + str([show(e, 120) for e in one])
+              + "; with decoys: " + str([show(e, 120) for e in two]),
+              node=wz0[0])
     # target mask is the chunk of the target iterator
-    if tmask:
-        lp = [n for n in ast.walk(f.node) if isinstance(n, ast.For)
-              and "zip" in ast.unparse(n.iter)]
-        ok_t = False
-        if lp:
-            z = lp[0].iter
-            names = [e.id for e in lp[0].target.elts]
-            srcs = [ast.unparse(a) for a in z.args]
-            if tmask in names:
-                ok_t = srcs[names.index(tmask)] == "target_iterator"
+    if tmask is not None:
+        ok_t = tmask[0] == "zipelem" and tmask[2][tmask[1]] == (
+            "param", "target_iterator")
         ctx.check(ok_t, "C03d-mask-is-target-flag", f,
                   "the mask is the target-flag chunk of the same zip step",
-                  f"mask '{tmask}' does not come from target_iterator",
-                  node=f.node)
+                  f"mask is {show(tmask, 120)}", node=f.node)
     # writers are created from out_paths in order and zipped with data_out
     wz = [n for n in ast.walk(f.node) if isinstance(n, ast.For)
           and ast.unparse(n.iter) == "zip(writers, data_out)"]
@@ -712,42 +753,78 @@ def _retained_rows(ctx):
     wc = [n for n in ast.walk(w.node) if isinstance(n, ast.Call)
           and ast.unparse(n.func) == "write_confidences"]
     ctx.require(len(wc) == 1, f"{w.qual}: write_confidences call not found")
-    args = [ast.unparse(a) for a in wc[0].args[:4]]
-    ok_z = args[1:] == ["chunked(self.qvals)", "chunked(self.peps)",
-                        "chunked(self.targets)"]
-    ctx.check(ok_z, "C03e-columns-attached", w,
-              "q-value, PEP and target chunks are handed over in the order "
-              "write_confidences expects",
-              f"write_confidences({args})", node=wc[0])
     wcf = prog.func("mokapot.confidence_writer.write_confidences")
     b = prog.bind(wcf, wc[0])
-    ok_b = (ast.unparse(b.get("q_value_iterator")) == "chunked(self.qvals)"
-            and ast.unparse(b.get("pep_iterator")) == "chunked(self.peps)"
-            and ast.unparse(b.get("target_iterator")) ==
-            "chunked(self.targets)")
-    ctx.check(ok_b, "C03e-columns-attached", w,
-              "each statistic is bound to its own formal of "
+    Tw = Terms(DefUse(prog, w))
+
+    def chunk_source(t):
+        """(data term, chunk size term) of create_chunks(data, size), also
+        through a local one-line wrapper"""
+        if t[0] != "call":
+            return None
+        if t[1] == "mokapot.utils.create_chunks":
+            cc = prog.func(t[1])
+            ba = dict(zip(cc.params, t[2]))
+            ba.update(dict(t[3]))
+            return ba.get(cc.params[0]), ba.get(cc.params[1])
+        wf = prog.funcs.get(t[1])
+        if wf is not None and len(t[2]) == 1 and not t[3] and len(
+                wf.params) == 1:
+            rt = Terms(DefUse(prog, wf)).returns()
+            if len(rt) == 1:
+                inner = chunk_source(rt[0][1])
+                if inner and inner[0] in (("param", wf.params[0]),
+                                          ("lparam", wf.params[0])):
+                    return t[2][0], inner[1]
+        return None
+
+    got = {}
+    for formal, attr in (("q_value_iterator", "qvals"),
+                         ("pep_iterator", "peps"),
+                         ("target_iterator", "targets")):
+        e = b.get(formal)
+        cs = chunk_source(Tw.of(e)) if e is not None else None
+        got[formal] = cs
+    ok_b = all(
+        got[fm] is not None and got[fm][0] == ("attr", ("param", "self"), at)
+        for fm, at in (("q_value_iterator", "qvals"),
+                       ("pep_iterator", "peps"),
+                       ("target_iterator", "targets")))
+    sizes = {cs[1] for cs in got.values() if cs}
+    di = Tw.of(b["data_iterator"]) if "data_iterator" in b else None
+    ok_size = len(sizes) == 1 and di is not None and di[0] == "mcall" and \
+        di[2] == "get_chunked_data_iterator" and di[3] and \
+        di[3][0] in sizes
+    ctx.check(ok_b and ok_size, "C03e-columns-attached", w,
+              "q-values, PEPs and target flags are chunked like the level "
+              "file and each is bound to its own formal of "
               "write_confidences",
-              f"binding: { {k: ast.unparse(v)[:40] for k, v in b.items()} }",
+              "binding: " + str({k: (show(v[0], 40), show(v[1], 50))
+                                 if v else None for k, v in got.items()})
+              + f"; rows from {show(di, 100) if di else None}",
               node=wc[0])
     # and write_confidences assigns them to the right column
-    zl = [n for n in ast.walk(wcf.node) if isinstance(n, ast.For)
-          and "zip" in ast.unparse(n.iter)
-          and "data_iterator" in ast.unparse(n.iter)]
-    ok_c = False
-    if zl:
-        names = [e.id for e in zl[0].target.elts]
-        srcs = [ast.unparse(a) for a in zl[0].iter.args]
-        m = dict(zip(srcs, names))
-        sets = {ast.unparse(s.targets[0]): ast.unparse(s.value)
-                for s in zl[0].body if isinstance(s, ast.Assign)}
-        dc = m.get("data_iterator")
-        ok_c = (sets.get(f"{dc}[qvalue_column]") == m.get("q_value_iterator")
-                and sets.get(f"{dc}[pep_column]") == m.get("pep_iterator"))
+    Tc = Terms(DefUse(prog, wcf), phi_vars=True)
+    col_of = {}
+    for n in ast.walk(wcf.node):
+        if isinstance(n, ast.Assign) and len(n.targets) == 1 and isinstance(
+                n.targets[0], ast.Subscript):
+            base = Tc.of(n.targets[0].value)
+            val = Tc.of(n.value)
+            col = Tc.of(n.targets[0].slice)
+            while base[0] == "store":
+                base = base[1]
+            if base[0] == "zipelem" and base[2][base[1]] == (
+                    "param", "data_iterator") and val[0] == "zipelem" and \
+                    val[2] == base[2] and col[0] == "param":
+                col_of[col[1]] = val[2][val[1]]
+    ok_c = col_of.get("qvalue_column") == ("param", "q_value_iterator") and \
+        col_of.get("pep_column") == ("param", "pep_iterator")
     ctx.check(ok_c, "C03e-columns-attached", wcf,
               "q-value chunk -> q-value column, PEP chunk -> PEP column of "
               "the same data chunk",
-              "statistic chunks are not stored under their own column",
+              "statistic chunks are stored as "
+              + str({k: show(v, 40) for k, v in col_of.items()}),
               node=wcf.node)
     # renaming pairs lists of equal shape
     g = prog.func(AC)
